@@ -347,6 +347,33 @@ CHECKS = {
         "assumptions": ["Rust std float formatting ({:e} shortest, {:.N} exact) and parsing are correct",
                         "ties in toFixed/toPrecision/toExponential round to the larger magnitude, as the specification's 'pick the larger n' prescribes"],
     },
+    "C16": {
+        "engines": NATIVE,
+        "level": "exploration",
+        "rule": "documents: 58 member-name classes (index-like, __proto__ and other Object.prototype names, empty, escapes, control and "
+                "astral characters, 300 chars) alone / with siblings / nested, all ordered pairs of 11 colliding names, ~900 strings (every "
+                "code point below U+0300, the BMP / astral boundaries, escapes, 100 kB) as values, elements, keys and top level, 23 escape "
+                "spellings x 6 contexts, 61 number spellings, whitespace / duplicate-key / empty-container texts, arrays to 65536 elements, "
+                "objects to 20000 members, nesting 8..20000, JS value graphs with every script-only leaf (undefined, function, symbol, NaN, "
+                "+-Infinity, -0) in every container position, shared acyclic substructure, 6 cyclic values, plus seeded random trees "
+                "(depth <= 6) shrunk on failure; each pushed through up to 15 paths (JSON.parse read back member by member in-script, "
+                "JSON.stringify compact / indented, api::create_from_json -> js_value_to_json, host value as a global -> stringify / "
+                "in-script read / returned, JS literal -> host / stringify, module export -> api::get_export, C API parse -> stringify). "
+                "A case is non-trivial when at least one path produced a result to compare; cases are distinct by construction",
+        "exhaustive": "the enumerated families are the same at every seed; random trees are sampled per shard",
+        "floor": {"quick": 2500, "thorough": 5000},
+        "unit_timeout": {"default": 900},
+        "technique": "runtime monitoring: round-trip oracle (serde_json::Value equality, well-formedness of emitted text) over every "
+                     "boundary path, an in-script member-by-member reader, crash-isolated children, failing random documents shrunk",
+        "level_text": "Every path must reproduce the document (numbers as doubles, member order free, -0 may print as 0), emitted text "
+                      "must be well-formed JSON, script-only leaves follow the statement's omission rules, shared substructure must not be "
+                      "mistaken for a cycle, cyclic values must be refused with a catchable TypeError, and no document may kill the process.",
+        "level_note": "serde_json is both tsrun's and the oracle's text parser (the oracle checks the tree<->value mapping and the text "
+                      "tsrun emits, not serde_json itself); documents nested deeper than serde_json's own limit are compared textually; lone "
+                      "surrogate escapes are outside the statement (not scalar values); object literals with a __proto__ member are not "
+                      "used as a path (that is object-literal semantics, C01)",
+        "assumptions": ["serde_json parses and prints JSON correctly", "the in-script reader (ser/qs) uses only typeof, Array.isArray, Object.keys, indexing, charAt/charCodeAt"],
+    },
     "C18": {
         "engines": NATIVE,
         "level": "exploration",
